@@ -18,13 +18,25 @@ class C16(Spec):
     rule = ("CC: Cache-Control built through the API from lists of 0-6 directives (8 plain, 4 timed with delta 0, 1, 59, "
             "2^31, 2^63-1 and random), written and parsed back; CL: Content-Length 0, 1, 2^32-1, 2^32, 2^32+1, 2^63, 2^64-1 "
             "and random; EN/CN/EX: every enum value of Content-/Transfer-Encoding, Connection, Expect; HO: Host with "
-            "names, dotted quads and bracketed IPv6 with ports 1, 79, 80, 81, 65535; SV: single- and multi-token Server; T: "
+            "names, dotted quads and bracketed IPv6 with ports 1, 79, 80, 81, 65535; DT: Date built from whole seconds (ends of 1678..2261, epoch, first/last day of every month of 18 years incl. 1900/2000/2100, random seconds), written, parsed, written again, compared with DateModel; SV: single- and multi-token Server; T: "
             "Content-Type built through the API with every quality 0..100 (written, parsed by the header and by the request parser, written again) and Accept texts with every quality; text-level double round trip (parse, write, parse, write) for every registered header incl. Date, Content-Type, "
-            "Accept values and arbitrary strings; L: requests whose header names (registered and unknown, duplicates in "
+            "Accept values and arbitrary strings; LT: requests in which registered headers (Host, Cache-Control, User-Agent, Location, Connection, Server, Authorization, Access-Control-Allow-Origin) occur one to three times under different capitalisations with different values, every name looked up in the typed collection (tryGet) and written back: the first occurrence; L: requests whose header names (registered and unknown, duplicates in "
             "other capitalisation) are looked up under random capitalisations. non-trivial = value that is not the empty "
             "string; distinct by case line")
-    assumptions = ["Date and Content-Type/Accept are outside this executable model (impl-only double round trip; media types are C18)",
+    assumptions = ["Date: the model reads only the canonical text FullDate::write produces (strict reader); what else date::from_stream accepts (other two formats, one-digit days, any zone name) is an impl-only double round trip; Content-Type/Accept are outside this executable model (media types are C18)",
                    "Host constructed with port 0 is representable but written without a port: excluded corner (DESIGN.md C16)"]
+
+    # value -> the text the typed header writes for it
+    TYPED_VALUES = {
+        "Host": [(b"first.example:8080", b"first.example:8080"), (b"second.example:81", b"second.example:81"), (b"third.example:9", b"third.example:9")],
+        "Cache-Control": [(b"max-age=0", b"max-age=0"), (b"no-store", b"no-store"), (b"private, max-age=600", b"private, max-age=600")],
+        "User-Agent": [(b"ua-one", b"ua-one"), (b"ua-two", b"ua-two"), (b"ua-three", b"ua-three")],
+        "Location": [(b"/one", b"/one"), (b"/two", b"/two"), (b"/three", b"/three")],
+        "Connection": [(b"close", b"Close"), (b"keep-alive", b"Keep-Alive"), (b"upgrade", b"Ext")],
+        "Server": [(b"one/1", b"one/1"), (b"two/2", b"two/2"), (b"three/3", b"three/3")],
+        "Authorization": [(b"Basic QQ==", b"Basic QQ=="), (b"Bearer x", b"Bearer x"), (b"Basic Qg==", b"Basic Qg==")],
+        "Access-Control-Allow-Origin": [(b"*", b"*"), (b"http://a", b"http://a"), (b"http://b", b"http://b")],
+    }
 
     def gen(self, rng, tier):
         cases = []
@@ -57,6 +69,20 @@ class C16(Spec):
             cases.append("AQ " + pv.hexs(("text/html; q=%s, */*; q=0.%02d" % (qt, (q * 7) % 100 or 1)).encode()))
         for toks in [[b"pistache/0.1"], [b"a"], [b"Apache/2.4", b"(Unix)"], [b"a", b"b", b"c"]]:
             cases.append("SV " + " ".join(pv.hexs(x) for x in toks))
+        # Date from whole seconds (every second of the years 1678..2261 is in the theorem's domain): the ends of the range,
+        # around the epoch, the days around every kind of February end, month and year ends, and random seconds
+        import calendar as _cal
+        lo, hi = -9214560000, 9214646399
+        secs = {lo, lo + 1, hi, hi - 1, 0, 1, -1, 59, 60, 3599, 3600, 86399, 86400, -86400, -86401, 784111777, 951782400}
+        for y in (1678, 1700, 1800, 1899, 1900, 1904, 1969, 1970, 1972, 1999, 2000, 2001, 2004, 2038, 2100, 2200, 2260, 2261):
+            for mth in range(1, 13):
+                last = _cal.monthrange(y, mth)[1]
+                for dd in (1, last):
+                    base = _cal.timegm((y, mth, dd, 0, 0, 0))
+                    secs.update((base, base + 86399))
+        cases.extend("DT %d" % x for x in sorted(secs))
+        for _ in range(600 if tier == "quick" else 20000):
+            cases.append("DT %d" % rng.randint(lo, hi))
         texts = {
             "Cache-Control": [b"no-cache", b"max-age=0", b"private, max-age=600", b"no-store,no-cache", b"max-age=5 , public", b"", b"max-age", b"bogus", b"public,", b"max-stale=1,min-fresh=2,s-maxage=3"],
             "Connection": [b"close", b"Keep-Alive", b"keep-alive", b"upgrade", b"", b"CLOSE"],
@@ -101,6 +127,29 @@ class C16(Spec):
             if nm.lower() not in ("content-type", "accept", "cache-control", "host", "authorization", "user-agent"):
                 msg = (b"GET / HTTP/1.1\r\n" + nm.lower().encode() + b": one\r\n" + nm.upper().encode() + b": two\r\n\r\n")
                 cases.append("L %s %s" % (pv.hexs(msg), " ".join(pv.hexs(x) for x in forms)))
+        # the TYPED view (tryGet by name, the header written back): registered names once and twice, the second time under
+        # another capitalisation and with another value; the first occurrence must be the one found, as in the raw view
+        for _ in range(300 if tier == "quick" else 6000):
+            picks = rng.sample(sorted(self.TYPED_VALUES), rng.randint(1, 4))
+            lines = []
+            for nm in picks:
+                vs = list(self.TYPED_VALUES[nm]); rng.shuffle(vs)
+                reps = rng.choice([1, 2, 2, 3])
+                for j in range(reps):
+                    lines.append((rc(nm) if j else rng.choice([nm, nm.lower(), nm.upper(), rc(nm)]), vs[j % len(vs)][0]))
+            # occurrences of one name keep their order; different names are interleaved at random
+            order = list(range(len(lines))); rng.shuffle(order)
+            seen = {}; arranged = []
+            byname = {}
+            for (n_, v_) in lines:
+                byname.setdefault(n_.lower(), []).append((n_, v_))
+            for i in order:
+                key = lines[i][0].lower()
+                arranged.append(byname[key][seen.get(key, 0)]); seen[key] = seen.get(key, 0) + 1
+            extra = [(rc("X-Foo"), b"v1")] if rng.random() < 0.5 else []
+            msg = b"GET / HTTP/1.1\r\n" + b"".join(k_.encode() + b": " + v_ + b"\r\n" for k_, v_ in arranged + extra) + b"\r\n"
+            looks = [rc(nm) for nm in picks] + [rc(rng.choice(sorted(self.TYPED_VALUES)))]
+            cases.append("LT %s %s" % (pv.hexs(msg), " ".join(pv.hexs(x) for x in looks)))
         for _ in range(400 if tier == "quick" else 8000):
             hs = []
             for _k in range(rng.randint(1, 6)):
@@ -154,6 +203,11 @@ class C16(Spec):
         elif t[0] in ("CN", "EX"):
             if o[2] != t[1]:
                 return "%s %s written %r parses back as %s" % (t[0], t[1], pv.unhex(o[1]), o[2])
+        elif t[0] == "DT":
+            if len(o) != 4 or o[2] != t[1]:
+                return "Date of second %s written %r parses back as %s" % (t[1], pv.unhex(o[1]) if len(o) > 1 else b"", o[2:] )
+            if o[3] != o[1]:
+                return "Date written twice gives different text: %r vs %r" % (pv.unhex(o[1]), pv.unhex(o[3]))
         elif t[0] == "HO":
             if len(o) != 4 or o[2] != t[1] or o[3] != t[2]:
                 return "Host(%r, %s) written %r parses back as %s" % (pv.unhex(t[1]), t[2], pv.unhex(o[1]), o[2:])
@@ -167,6 +221,19 @@ class C16(Spec):
                 return "header %s: the text written for value %r does not parse: %r" % (pv.unhex(t[1]), pv.unhex(t[2]), pv.unhex(o[2]))
             if o[1] == "ok" and o[2] != o[3]:
                 return "header %s: writing the parsed header twice differs: %r vs %r" % (pv.unhex(t[1]), pv.unhex(o[2]), pv.unhex(o[3]))
+        elif t[0] == "LT":
+            if o[0] != "LT" or len(o) != len(t) - 1:
+                return "typed lookup: %s on %s" % (impl[:80], pv.unhex(t[1]))
+            msg = pv.unhex(t[1]).split(b"\r\n")[1:]
+            hs = [(l.split(b":", 1)[0], l.split(b":", 1)[1].strip(b" ")) for l in msg if b":" in l]
+            written = {nm.lower().encode(): dict(vs) for nm, vs in self.TYPED_VALUES.items()}
+            for nm, got in zip(t[2:], o[1:]):
+                k = pv.unhex(nm).lower()
+                first = next((v for n_, v in hs if n_.lower() == k), None)
+                want = None if first is None else written[k][first]
+                g = None if got == "N" else pv.unhex(got[1:])
+                if g != want:
+                    return "typed lookup of %r in %r: expected the first occurrence %r written as %r, got %r" % (pv.unhex(nm), pv.unhex(t[1]), first, want, g)
         elif t[0] == "L" and o[0] == "L" and len(o) > 1:
             msg = pv.unhex(t[1]).split(b"\r\n")[1:]
             hs = [(l.split(b":", 1)[0], l.split(b":", 1)[1].strip(b" ")) for l in msg if b":" in l]
